@@ -2,7 +2,7 @@
    No theorem lives here. *)
 From Coq Require Import String.
 From Flocq Require Import Core BinarySingleNaN.
-Require Import DDO.Base DDO.Gap DDO.Width DDO.Cache DDO.Dom DDO.DomSpec DDO.Fringe DDO.FringeProofs DDO.Fringe2 DDO.DP DDO.Mdd DDO.Viz DDO.Table DDO.Solver.
+Require Import DDO.Base DDO.Gap DDO.Width DDO.Cache DDO.Dom DDO.DomSpec DDO.Fringe DDO.FringeProofs DDO.Fringe2 DDO.DP DDO.Mdd DDO.Viz DDO.Table DDO.Solver DDO.Par.
 Open Scope Z_scope.
 
 (* IEEE-754 binary32 bit pattern of a model float; None = NaN *)
@@ -111,3 +111,7 @@ Definition tb_opt_from (ti : tinst) (k : nat) (s : tstate) (v : Z) : option Z :=
 Definition tb_hstar (ti : tinst) (k : nat) (s : tstate) : option Z := H (t_problem ti) k s.
 Definition tb_replay (ti : tinst) (ds : list decision) (s : tstate) (v : Z) := replay (t_problem ti) ds s v.
 Definition tb_enum_from (ti : tinst) (k : nat) (s : tstate) (v : Z) := enum_from (t_problem ti) (S (t_nvars ti) - k) k s v.
+
+(* the parallel protocol model under a given schedule *)
+Definition tb_par_maximize (cfg : @sconfig tstate) (fuel ctor nthreads : nat) (primal : option (Z * list decision)) (sched : list nat) :=
+  par_maximize tstate_eqb cfg fuel ctor nthreads primal sched.
